@@ -13,7 +13,10 @@ PROPS = ("C16",)
 
 
 def plan(tier, seed):
-    return ec.plan_e2e(seed, 16, MIX, 160 if tier == "quick" else 1600, nwcap=12 if tier == "quick" else 24)
+    specs = ec.plan_e2e(seed, 16, MIX, 160 if tier == "quick" else 1600, nwcap=12 if tier == "quick" else 24)
+    if tier == \"thorough\":
+        specs += ec.fixture_specs()
+    return specs
 
 
 def nontrivial(run, I):
